@@ -1,5 +1,6 @@
 SPECIFICATION TraceSpec
 CONSTANTS Variant = "ok"
 CONSTRAINT Mark
+ACTION_CONSTRAINT ActOK
 POSTCONDITION Report
 CHECK_DEADLOCK FALSE
